@@ -348,3 +348,6 @@ for _u in UNITS:
     if _u not in (read_body_loop, read_body_outer, read_headers):
         _u.replay = replay.first_of(_u.replay, _bat9) if _u.replay else _bat9
 capitalized_unit.replay = replay.battery('C10/driver.cpp', ['battery'])     # header-name handling is exercised by the request battery
+
+# planted one-token breaks for the newer units (thorough tier: each must make an obligation fail)
+capitalized_unit.planted = [('cap', r': tolower\(pname\[i\]\)', ': pname[i]')]
